@@ -457,10 +457,18 @@ write_code(ostream &out_code,ostream * out_include, InterrogateModuleDef *def) {
   map<int, FunctionRemap *> wrappers_by_index;
 
   std::vector<FunctionRemap *>::iterator ri;
-  for (ri = remaps.begin(); ri != remaps.end(); ++ri) {
+  for (ri = remaps.begin(); ri != remaps.end();) {
     FunctionRemap *remap = (*ri);
+    if (remap->_wrapper_index == 0) {
+      // No wrapper entry was made for this remap (see
+      // InterfaceMaker::record_function), so it has no index number and
+      // does not belong in the tables below.
+      ri = remaps.erase(ri);
+      continue;
+    }
     wrappers_by_index[remap->_wrapper_index] = remap;
     num_wrappers++;
+    ++ri;
   }
 
   if (output_function_pointers) {
